@@ -198,8 +198,8 @@ def rand_closed(rng, flower=False):
         order = rng.choice([2, 3, 4])
         inner = [(float(rng.randint(-300, 300)), float(rng.randint(-300, 300))) for _ in range(order - 2)]
         segs.append([nodes[i]] + inner + [nodes[(i + 1) % n]])
-        if rng.random() < 0.12:
-            # a lobe: a cubic that leaves the node and comes back to it (start == end) enclosing a large area
+        if not any(len(sg) == 4 and sg[0] == sg[3] for sg in segs) and rng.random() < 0.05:
+            # a lobe (at most one per outline): a cubic that leaves the node and comes back to it (start == end) enclosing a large area
             q = nodes[(i + 1) % n]
             a = rng.uniform(0, 2 * math.pi)
             b = a + rng.choice([-1, 1]) * rng.uniform(1.0, 2.0)
@@ -211,7 +211,12 @@ def rand_closed(rng, flower=False):
 def run_one(kind, inp):
     if kind == "seg":
         return check_segment([tuple(p) for p in inp["pts"]], inp["t"])
-    return check_path(inp)
+    msg = check_path(inp)
+    if msg is None and inp["kind"] == "chain" and len(inp["segs"]) < 12:
+        segs = [[tuple(p) for p in s] for s in inp["segs"]]
+        msg = oc.path_stale_check(segs, True, hash(repr(segs)) & 0xFFFFFF, [
+            ("signed_area", lambda g: g.signed_area), ("direction", lambda g: g.direction)])
+    return msg
 
 
 def search(ctx, budget):
@@ -233,7 +238,7 @@ def search(ctx, budget):
             if len(set(map(tuple, inp["pts"]))) >= 2 and repr(inp) not in seen:
                 seen.add(repr(inp)); nontriv += 1
         else:
-            inp = rand_closed(rng, flower=(i // 7) % 50 == 7)
+            inp = rand_closed(rng, flower=(i // 7) % 100 == 7)
             kind = "path"
             if repr(inp) not in seen:
                 seen.add(repr(inp)); nontriv += 1
